@@ -467,7 +467,7 @@ func refill(thorough bool) {
 // (including 0) so that Contains is frequently true, plus fresh values so that stale cells differ.
 func random(r *rng.R, cases, maxOps int) {
 	eqs := []string{"eq", "eq", "m3", "le"}
-	rsizes := []int{1, 2, 3, 4, 5, 7, 8, 64}
+	rsizes := []int{1, 2, 3, 4, 5, 7, 8, 64, 17, 20, 33, 48, 100}
 	for c := 0; c < cases; c++ {
 		kind := []string{"Q", "S", "SQ"}[r.Intn(3)]
 		if r.Chance(1, 4) {
@@ -556,8 +556,127 @@ func random(r *rng.R, cases, maxOps int) {
 	}
 }
 
+// big: block sizes that are neither tiny nor a power of two (17, 20, 33, 48, 100; 1000 in the thorough tier), so
+// that a block whose physical length differs from nodeSize (lazy / geometric allocation, recycling) shows.
+// Per size and structure: a run of 2*nodeSize+50 fresh values with Peek/Size on the way, a Contains sweep over
+// every value ever added plus 0 and the next one, a complete drain checking every value handed out; then
+// drain-and-refill patterns around the nodeSize boundaries (a in nodeSize-1..nodeSize+1 and 2*nodeSize-1..2*nodeSize+1,
+// remove a or a-1, refill 1 | nodeSize | nodeSize+1, sweep, drain).
+func big(thorough bool) {
+	bsizes := []int{17, 20, 33, 48, 100}
+	if thorough {
+		bsizes = append(bsizes, 1000)
+	}
+	for _, kind := range []string{"Q", "S"} {
+		for _, ns := range bsizes {
+			head := fmt.Sprintf("%s %d eq", kind, ns)
+			sweep := func(ops []string, maxv int) []string {
+				if ns < 1000 {
+					for v := 0; v <= maxv; v++ {
+						ops = append(ops, fmt.Sprintf("C %d", v))
+					}
+					return ops
+				}
+				// nodeSize 1000: a sparse sweep (every 41st value and everything near a multiple of
+				// nodeSize or of a power of two) keeps the unary-indexed model affordable
+				for v := 0; v <= maxv; v++ {
+					near := false
+					for _, m := range []int{ns, 2 * ns, 3 * ns, 16, 32, 64, 128, 256, 512, 1024, 2048, 4096} {
+						if v >= m-3 && v <= m+3 {
+							near = true
+						}
+					}
+					if near || v%41 == 0 || v >= maxv-2 {
+						ops = append(ops, fmt.Sprintf("C %d", v))
+					}
+				}
+				return ops
+			}
+			// long run, sweep, complete drain
+			n := 2*ns + 50
+			var ops []string
+			for v := 1; v <= n; v++ {
+				ops = append(ops, fmt.Sprintf("E %d", v))
+				if v%7 == 0 || v >= ns-1 && v <= ns+1 || v >= 2*ns-1 && v <= 2*ns+1 {
+					ops = append(ops, "P", "N")
+				}
+			}
+			ops = append(ops, "N", "Z", "P")
+			ops = sweep(ops, n+1)
+			ops = append(ops, "X")
+			for i := 0; i < n+1; i++ {
+				ops = append(ops, "D")
+				if i%5 == 0 {
+					ops = append(ops, "N", "P")
+				}
+			}
+			ops = append(ops, "N", "Z", "P", "C 0", "C 1", fmt.Sprintf("C %d", n), "X")
+			// and once more on the drained structure
+			for v := n + 1; v <= n+ns+2; v++ {
+				ops = append(ops, fmt.Sprintf("E %d", v))
+			}
+			ops = sweep(ops, n+ns+3)
+			ops = rep(ops, "D", ns+3)
+			ops = append(ops, "N", "Z")
+			runCase(head, ops)
+			// partial drains in the middle of a long run: remove down to a block boundary, continue
+			for _, keep := range []int{0, 1, ns - 1, ns, ns + 1} {
+				var ops []string
+				next := 1
+				for ; next <= n; next++ {
+					ops = append(ops, fmt.Sprintf("E %d", next))
+				}
+				ops = rep(ops, "D", n-keep)
+				ops = append(ops, "N", "P")
+				ops = sweep(ops, n+1)
+				for i := 0; i < ns+2; i++ {
+					ops = append(ops, fmt.Sprintf("E %d", next))
+					next++
+				}
+				ops = append(ops, "N", "P")
+				ops = sweep(ops, next)
+				ops = rep(ops, "D", keep+ns+3)
+				ops = append(ops, "N", "Z")
+				runCase(head, ops)
+			}
+			// refill patterns around the nodeSize boundaries
+			if ns >= 1000 {
+				continue
+			}
+			for _, a := range []int{ns - 1, ns, ns + 1, 2*ns - 1, 2 * ns, 2*ns + 1} {
+				for _, back := range []int{0, 1} {
+					for _, r := range []int{1, ns, ns + 1} {
+						var ops []string
+						next := 1
+						add := func(k int) {
+							for i := 0; i < k; i++ {
+								ops = append(ops, fmt.Sprintf("E %d", next))
+								next++
+							}
+						}
+						add(a)
+						ops = rep(ops, "D", a-back)
+						ops = append(ops, "N", "Z", "P")
+						add(r)
+						ops = append(ops, "N", "P")
+						ops = sweep(ops, next)
+						ops = append(ops, "X")
+						ops = rep(ops, "D", back+r+1)
+						ops = append(ops, "N", "Z", "P")
+						add(ns + 1)
+						ops = append(ops, "P", fmt.Sprintf("C %d", next-1), fmt.Sprintf("C %d", next-ns-1), fmt.Sprintf("C %d", next-ns-2))
+						ops = rep(ops, "D", ns+2)
+						ops = append(ops, "N", "Z")
+						runCase(head, ops)
+					}
+				}
+			}
+		}
+	}
+}
+
 func main() {
-	mode := flag.String("mode", "exhaustive", "exhaustive|dup|literal|refill|random")
+	mode := flag.String("mode", "exhaustive", "exhaustive|dup|literal|refill|big|random")
 	tier := flag.String("tier", "quick", "quick|thorough")
 	replay := flag.String("replay", "", "case file to re-execute")
 	flag.Parse()
@@ -596,6 +715,8 @@ func main() {
 		}
 	case "refill":
 		refill(thorough)
+	case "big":
+		big(thorough)
 	case "random":
 		r := rng.FromEnv(18)
 		if thorough {
